@@ -849,10 +849,11 @@ FAULT_MATRIX = [
     ("intopanic", "eref_absent"), ("intopanic", "eref_present"), ("intopanic", "eref_absent_full"),
 ]
 
-def make_fault_matrix_script(rng, name, kind=None):
+def make_fault_matrix_script(rng, name, kind=None, only_arm=None):
     """One block per (callback class, operation) pair: build a map (optionally at exact capacity and
     full of tombstones, so that the armed insertion rehashes in place), arm the k-th call, run the
-    operation, look at the result (the checks run after every step), clear."""
+    operation, look at the result (the checks run after every step), clear.
+    only_arm: every pair of that callback class, each twice (deterministic coverage of the class)."""
     kind = kind or rng.choice(["map-drop", "map-drop", "map-plain"])
     plan = rng.choice(PLANS)
     g = Gen(rng, 64, plan, kind)
@@ -860,7 +861,11 @@ def make_fault_matrix_script(rng, name, kind=None):
     g.header()
     pairs = list(FAULT_MATRIX)
     rng.shuffle(pairs)
-    for arm, op in pairs[: rng.choice([8, 12, len(pairs)])]:
+    if only_arm:
+        pairs = [p for p in pairs if p[0] == only_arm] * 2
+    else:
+        pairs = pairs[: rng.choice([8, 12, len(pairs)])]
+    for arm, op in pairs:
         full = op.endswith("_full")
         n = rng.choice([7, 14, 28, 56]) if full else rng.choice([3, 7, 12, 20, 28, 40])
         g.emit("dropmap"); g.contents = {}
